@@ -89,6 +89,7 @@ pub enum Tier {
     Thorough,
 }
 
+#[derive(Clone)]
 pub struct Ctx {
     pub id: String,
     pub tier: Tier,
@@ -425,4 +426,130 @@ pub fn finalize(ctx: &Ctx, spec: Spec, mut st: Stats) -> i32 {
     }
     say!("HELD property={} on everything observed", ctx.id);
     0
+}
+
+
+// ------------------------------------------------------------------------------- hang monitor
+//
+// A case whose engine call never returns cannot be caught by catch_unwind and cannot be killed (it
+// runs on a thread of this process). Monitors register such cases here; a monitor thread reads the
+// CPU time of the registering thread from /proc and, once one case has burnt more CPU than its
+// limit (orders of magnitude above what the case normally needs — CPU time, so machine load cannot
+// fake it), ends the run at once with a verdict for that case: a violation where the property
+// itself promises a prompt return (C07), inconclusive elsewhere. Evidence of such a run is minimal.
+
+struct Slot {
+    tid: i32,
+    cpu0_ms: u64,
+    limit_ms: u64,
+    violation: bool,
+    signature: String,
+    summary: String,
+    replay: J,
+}
+
+static SLOTS: Mutex<Vec<Option<Slot>>> = Mutex::new(Vec::new());
+static GUARDED_CASES: std::sync::atomic::AtomicU64 = std::sync::atomic::AtomicU64::new(0);
+
+extern "C" {
+    fn syscall(n: i64, ...) -> i64;
+}
+
+fn own_tid() -> i32 {
+    // SYS_gettid on x86_64
+    unsafe { syscall(186) as i32 }
+}
+
+fn thread_cpu_ms(tid: i32) -> Option<u64> {
+    let t = std::fs::read_to_string(format!("/proc/self/task/{}/stat", tid)).ok()?;
+    let rest = &t[t.rfind(')')? + 1..];
+    let f: Vec<&str> = rest.split_whitespace().collect();
+    // after the command name: state is field 0, utime field 11, stime field 12
+    let ut: u64 = f.get(11)?.parse().ok()?;
+    let stt: u64 = f.get(12)?.parse().ok()?;
+    Some((ut + stt) * 10)
+}
+
+pub struct CaseGuard(Option<usize>);
+
+impl Drop for CaseGuard {
+    fn drop(&mut self) {
+        if let Some(i) = self.0 {
+            if let Ok(mut s) = SLOTS.lock() {
+                s[i] = None;
+            }
+        }
+    }
+}
+
+/// Registers the case the calling thread is about to run. `violation`: a hang of this case refutes
+/// the property being checked (otherwise the run ends inconclusive, naming the case).
+pub fn guard_case(limit_s: u64, violation: bool, signature: String, summary: String, replay: J) -> CaseGuard {
+    if cfg!(miri) {
+        return CaseGuard(None);
+    }
+    let tid = own_tid();
+    let Some(cpu0_ms) = thread_cpu_ms(tid) else { return CaseGuard(None) };
+    GUARDED_CASES.fetch_add(1, std::sync::atomic::Ordering::Relaxed);
+    let slot = Slot { tid, cpu0_ms, limit_ms: limit_s * 1000, violation, signature, summary, replay };
+    let mut s = SLOTS.lock().unwrap();
+    let i = match s.iter().position(|x| x.is_none()) {
+        Some(i) => i,
+        None => {
+            s.push(None);
+            s.len() - 1
+        }
+    };
+    s[i] = Some(slot);
+    CaseGuard(Some(i))
+}
+
+pub fn start_hang_monitor(ctx: &Ctx) {
+    if cfg!(miri) {
+        return;
+    }
+    let ctx = ctx.clone();
+    std::thread::spawn(move || loop {
+        std::thread::sleep(Duration::from_millis(500));
+        let mut hit: Option<(bool, String, String, J, u64, u64)> = None;
+        if let Ok(s) = SLOTS.lock() {
+            for sl in s.iter().flatten() {
+                if let Some(now) = thread_cpu_ms(sl.tid) {
+                    let used = now.saturating_sub(sl.cpu0_ms);
+                    if used > sl.limit_ms {
+                        hit = Some((sl.violation, sl.signature.clone(), sl.summary.clone(), sl.replay.clone(), used, sl.limit_ms));
+                        break;
+                    }
+                }
+            }
+        }
+        if let Some((violation, signature, summary, replay, used, limit)) = hit {
+            let mut st = Stats::new();
+            let n = GUARDED_CASES.load(std::sync::atomic::Ordering::Relaxed);
+            st.evals = n;
+            // what was completed before the stuck case is not collected from the workers: count the
+            // guarded cases started (each a distinct case by construction of the workloads)
+            for k in 0..n.min(1000) {
+                st.distinct.insert(k);
+            }
+            let text = format!("{}: the call had not returned after {:.1} s of CPU time on its thread (limit {} s; cases of this kind need well under a second)", summary, used as f64 / 1000.0, limit / 1000);
+            st.samples.push(replay.clone());
+            if violation {
+                st.violation(signature, text, replay);
+            } else {
+                st.inconclusive.push(text);
+            }
+            let level = if ctx.id == "C06" || ctx.id == "C07" { "fault_enumeration" } else { "exploration" };
+            let spec = Spec {
+                level,
+                rule: "RUN CUT SHORT by the hang monitor: one case never returned, so the statistics of the worker threads were not collected; evaluations counts the guarded cases started, distinct_nontrivial at most the first 1000 of them",
+                assumptions: vec![],
+                required: vec![],
+                exhaustive: false,
+                extra: vec![],
+            };
+            let code = finalize(&ctx, spec, st);
+            std::process::exit(code);
+        }
+    });
 }
